@@ -118,6 +118,7 @@ class Schema(ResolverMap):
         "nodes",
         "_possible_types",
         "_is_valid",
+        "_validated_resolvers",
         "_literal_types_cache",
         "types",
         "directives",
@@ -163,6 +164,7 @@ class Schema(ResolverMap):
             {}
         )  # type: Dict[GraphQLAbstractType, Sequence[ObjectType]]
         self._is_valid = None  # type: Optional[bool]
+        self._validated_resolvers = None  # type: Any
         self._literal_types_cache = {}  # type: Dict[_ast.Type, GraphQLType]
 
         self.implementations = defaultdict(
@@ -285,9 +287,37 @@ class Schema(ResolverMap):
         Raises:
             :class:`~py_gql.exc.SchemaError` if the schema is invalid.
         """
-        if self._is_valid is None:
+        # Resolvers can be reassigned by plain assignment (`schema.default_resolver`,
+        # `ObjectType.default_resolver`, `Field.resolver`, `Field.subscription_resolver`):
+        # the cached verdict only stands for the callables it was computed with.
+        resolvers = self._current_resolvers()
+        if not self._verdict_is_current(resolvers):
             validate_schema(self)
             self._is_valid = True
+            self._validated_resolvers = resolvers
+
+    def _current_resolvers(self) -> Any:
+        return (
+            self.default_resolver,
+            tuple(
+                (
+                    getattr(type_, "default_resolver", None),
+                    tuple(
+                        (f.resolver, f.subscription_resolver)
+                        for f in type_.fields
+                    ),
+                )
+                for type_ in self.types.values()
+                if isinstance(type_, (ObjectType, InterfaceType))
+            ),
+        )
+
+    def _verdict_is_current(self, resolvers: Any = None) -> bool:
+        if self._is_valid is None:
+            return False
+        if resolvers is None:
+            resolvers = self._current_resolvers()
+        return _same_objects(self._validated_resolvers, resolvers)
 
     def get_type(self, name: str) -> NamedType:
         """
@@ -681,6 +711,15 @@ def _clone_directive(directive: Directive) -> Directive:
     cloned.arguments = [copy.copy(a) for a in directive.arguments]
     cloned.argument_map = {a.name: a for a in cloned.arguments}
     return cloned
+
+
+def _same_objects(lhs: Any, rhs: Any) -> bool:
+    # Identity comparison of (nested tuples of) callables.
+    if isinstance(lhs, tuple) and isinstance(rhs, tuple):
+        return len(lhs) == len(rhs) and all(
+            _same_objects(a, b) for a, b in zip(lhs, rhs)
+        )
+    return lhs is rhs
 
 
 def _build_directive_map(maybe_directives: List[Any]) -> Dict[str, Directive]:
